@@ -207,8 +207,7 @@ def HC_cov(Fn_cov, max_cov) -> typing.Tuple[np.ndarray, np.ndarray]:
 
     """
     mask = (Fn_cov < max_cov).astype(int)
-    filt_cov = Fn_cov * mask
-    filt_cov[filt_cov == 0] = np.nan
+    filt_cov = np.where(mask.astype(bool), Fn_cov, np.nan)
     # should be the same as
     # filt_damp = np.where(damp, np.logical_and(damp < max_damp, damp > 0), damp, np.nan)
     return filt_cov, mask
